@@ -214,6 +214,21 @@ inline void hand_written(std::vector<Built>& out) {
     { Dot11BlockAck b(MAC1, MAC2); b.bar_control(3); b.start_sequence(55); b.bitmap(pattern(8).data()); addc(out, "dot11 blockack", b); }
     addc(out, "dot11 control", Dot11Control(MAC1));
     addc(out, "dot11 base", Dot11(MAC1));
+    // ---- large options / tags / records: length fields near and past one-octet limits
+    { ICMPv6 c(ICMPv6::ROUTER_SOLICIT); c.source_link_layer_addr(MAC1); Bytes big = pattern(262, 0x21); c.add_option(ICMPv6::option(253, big.begin(), big.end())); c.mtu(ICMPv6::mtu_type(0, 1280));
+      addc(out, "eth/ipv6/icmpv6 rs[slla,opt264,mtu]", eth() / ip6() / c); }
+    { ICMPv6 c(ICMPv6::ROUTER_ADVERT); Bytes big = pattern(254, 0x22); c.add_option(ICMPv6::option(200, big.begin(), big.end())); addc(out, "eth/ipv6/icmpv6 ra[opt256]", eth() / ip6() / c); }
+    { DHCP d; d.opcode(1); d.type(DHCP::INFORM); Bytes big = pattern(255, 0x23); d.add_option(DHCP::option((DHCP::OptionTypes)43, big.begin(), big.end())); d.hostname("h"); d.end();
+      addc(out, "eth/ip/udp/dhcp[opt255]", eth() / ip4() / UDP(67, 68) / d); }
+    { DHCPv6 d; d.msg_type(DHCPv6::REQUEST); d.transaction_id(1); Bytes big = pattern(300, 0x24); d.add_option(DHCPv6::option(17, big.begin(), big.end())); d.elapsed_time(1);
+      addc(out, "eth/ipv6/udp/dhcpv6[opt300]", eth() / ip6() / UDP(547, 546) / d); }
+    { Dot11Beacon b; b.addr2(MAC1); b.ssid("x"); Bytes big = pattern(255, 0x25); b.add_option(Dot11::option(221, big.begin(), big.end())); b.ds_parameter_set(1); addc(out, "radiotap/beacon[tag255]", RadioTap() / b); }
+    { PPPoE p; p.code(0x09); Bytes big = pattern(300, 0x26); p.add_tag(PPPoE::tag(PPPoE::VENDOR_SPECIFIC, big.begin(), big.end())); p.service_name("s"); addc(out, "eth/pppoe[tag300]", eth() / p); }
+    { TCP t(80, 1025); Bytes big = pattern(34, 0x27); t.add_option(TCP::option((TCP::OptionTypes)253, big.begin(), big.end())); t.mss(536); addc(out, "eth/ip/tcp[opt36,mss]/raw", eth() / ip4() / t / RawPDU(pattern(4))); }
+    { IP i = ip4(); Bytes big = pattern(34, 0x28); i.add_option(IP::option(IP::option_identifier((uint8_t)0x9e), big.begin(), big.end())); i.noop(); addc(out, "eth/ip[opt36,nop]/udp/raw", eth() / i / UDP(1, 2) / RawPDU(pattern(4))); }
+    { IPv6 i = ip6(); Bytes big = pattern(254, 0x29); i.add_header(IPv6::ext_header(IPv6::DESTINATION_ROUTING_OPTIONS, big.begin(), big.end())); addc(out, "eth/ipv6[dst254]/udp", eth() / i / UDP(1, 2)); }
+    { DNS d; d.id(7); d.type(DNS::RESPONSE); d.add_query(DNS::query("t.example", DNS::TXT, DNS::IN)); d.add_answer(DNS::resource("t.example", std::string(255, 'z'), DNS::TXT, DNS::IN, 1));
+      addc(out, "ip/udp/dns[txt255]", ip4() / UDP(4000, 53) / d); }
     // payload size boundary family (Ethernet minimum frame padding, odd/even checksums)
     for (int n : {0, 1, 2, 7, 8, 17, 18, 19, 45, 46, 47, 127, 128, 129})
         addc(out, "eth/ip/udp/raw(" + std::to_string(n) + ")", eth() / ip4() / UDP(1000, 2000) / RawPDU(pattern(n, uint8_t(n))));
